@@ -460,7 +460,11 @@ func lex(s string) ([]tok, error) {
 			i = len(s)
 		case unicode.IsLetter(rune(c)) || c == '_' || c == '$':
 			j := i + 1
-			for j < len(s) && (unicode.IsLetter(rune(s[j])) || unicode.IsDigit(rune(s[j])) || s[j] == '_' || s[j] == '$') {
+			hash := false
+			for j < len(s) && (unicode.IsLetter(rune(s[j])) || unicode.IsDigit(rune(s[j])) || s[j] == '_' || s[j] == '$' || s[j] == '#' || (hash && (s[j] == '*' || s[j] == '[' || s[j] == ']'))) {
+				if s[j] == '#' {
+					hash = true // name#Type: the variable of that name whose Go type is Type (disambiguates shadowed names)
+				}
 				j++
 			}
 			toks = append(toks, tok{"id", s[i:j]})
